@@ -62,9 +62,9 @@ func hookHitCounts() map[string]int {
 
 func c11RaceCases(tier string) int {
 	if tier == "thorough" {
-		return 200
+		return 240
 	}
-	return 24
+	return 32
 }
 
 func (p *c11r) NumCases(tier string) int { return c11RaceCases(tier) }
@@ -168,16 +168,16 @@ func (p *c11r) RunCase(ctx *runner.Ctx) runner.CaseResult {
 
 func c11ConsCases(tier string) int {
 	if tier == "thorough" {
-		return 400
+		return 600
 	}
-	return 40
+	return 100
 }
 
 func c11LinCases(tier string) int {
 	if tier == "thorough" {
-		return 12000
+		return 20000
 	}
-	return 600
+	return 2000
 }
 
 func (p *c11) NumCases(tier string) int { return c11ConsCases(tier) + c11LinCases(tier) }
